@@ -90,6 +90,12 @@ def _simple_arg(node):
     """argument expressions that can be substituted textually without changing evaluation"""
     if isinstance(node, (ast.Name, ast.Constant)):
         return True
+    # a bound method of self (`self.addition`) passed as a callable, and displays of constants (token-kind lists): reading
+    # them later or several times yields the same value
+    if isinstance(node, ast.Attribute) and isinstance(node.value, ast.Name) and node.value.id in ("self", "cls"):
+        return True
+    if isinstance(node, (ast.Tuple, ast.List)) and all(isinstance(e, ast.Constant) for e in node.elts):
+        return True
     return False
 
 
